@@ -215,6 +215,16 @@ class Check:
             "notes": self.notes,
             "checker_cmd": f"./check {self.pid} --tier {self.tier}",
         }
+        nf = getattr(self, "normal_form", None)
+        if nf is not None:
+            cov["normal_form"] = {
+                "note": "source brought to normal form before the rules ran (sa/normalize.py): helpers/constants not in the reference inventory seen through, renamed private functions mapped back, call conventions, alias locals, conditional expressions, flag loops, comprehensions",
+                "counts": {k: len(v) for k, v in nf.items()},
+                "renamed": nf.get("renamed", []),
+                "inlined": nf.get("inlined", [])[:40],
+                "not_inlined": nf.get("not_inlined", [])[:20],
+                "constants": nf.get("constants", [])[:20],
+            }
         if self.selftest is not None:
             cov["selftest"] = self.selftest
         ev = {
